@@ -6,6 +6,8 @@ import NurbsVerif.Lemmas.FitApproxEval
 import NurbsVerif.Lemmas.FitApproxOne
 import NurbsVerif.Lemmas.FitASurfEval
 import NurbsVerif.Lemmas.FitASurfLsq
+import NurbsVerif.Lemmas.FitGuards
+import NurbsVerif.Lemmas.FitWitness
 import Mathlib.Algebra.Order.Field.Rat
 
 /-!
@@ -16,7 +18,12 @@ Model: `Geomdl.computeParams`, `computeKnotVector`, `buildCoeffMatrix`, `interpo
 lengths – square roots in the code – are inputs).
 
 Non-singularity of the collocation / normal matrices is a hypothesis throughout ("whenever the
-solver returns").  `Geomdl.lsqError` / `Geomdl.lsqErrorEval` (Lemmas/FitApprox*.lean) are the
+solver returns").  Every theorem about a fitting routine carries the guard of its driver op as a bundle
+(`InterpCurveOk`, `InterpSurfOk`, `ApproxCurveOk`, `ApproxSurfOk`, Lemmas/FitGuards.lean): the inputs on which the real
+routine reaches the solver instead of raising – degree ≥ 1, enough points, at least THREE control points per
+direction for the approximations (with two the code raises `IndexError`, finding F-11a, while the model would return the
+segment / bilinear patch), `su·sv` data points, and a non-zero total chord length in every data line (otherwise
+`compute_params_curve` raises `ZeroDivisionError`, while the model's `x / 0 = 0` would go on).  `Geomdl.lsqError` / `Geomdl.lsqErrorEval` (Lemmas/FitApprox*.lean) are the
 spec-level sums `Σ_{k=1}^{nd−2} |Q_k − C(ū_k)|²` (with `C` written as `Σ_j N_{j,p} P_j` through
 `basis_function_one`, resp. with `C` the evaluated curve point of A3.1).
 -/
@@ -38,9 +45,11 @@ theorem collocation_interpolates (p : ℕ) (U : ℕ → K) (uk : List K) (pts cp
     the LU solver) passes through every data point at its chord-length / centripetal parameter. -/
 theorem interpolateCurve_interpolates (p : ℕ) (pts : List (List K)) (cds : List K) (invp : K) (d : ℕ)
     (kv : List K) (cp : List (List K))
-    (hlen : cds.length + 1 = pts.length) (hpn : p + 1 ≤ pts.length) (hP : NetOk d pts) (hd : 0 < d)
+    (hg : InterpCurveOk p pts cds) (hP : NetOk d pts) (hd : 0 < d)
     (h : interpolateCurve p pts cds invp = some (kv, cp)) (i : ℕ) (hi : i < pts.length) (c : ℕ) (hc : c < d) :
     (curvePoint p (fnOf kv) cp ((computeParams cds).getD i 0)).getD c 0 = (ptsGet pts i).getD c 0 := by
+  have hlen := hg.len
+  have hpn := hg.pn
   unfold interpolateCurve at h
   simp only [] at h
   split at h
@@ -65,7 +74,8 @@ theorem params_first (cds : List K) : (computeParams cds).getD 0 0 = 0 := by
 /-- … and the approximation keeps the first and the last data point as end control points
     (so with clamped knots the approximating curve interpolates the end data points, C18). -/
 theorem approximateCurve_endpoints (p : ℕ) (pts : List (List K)) (cds : List K) (nc : ℕ) (fl : K → ℕ)
-    (kv : List K) (cp : List (List K)) (h : approximateCurve p pts cds nc fl = some (kv, cp)) :
+    (kv : List K) (cp : List (List K)) (hg : ApproxCurveOk p pts cds nc)
+    (h : approximateCurve p pts cds nc fl = some (kv, cp)) :
     cp.head? = some (pts.headD []) ∧ cp.getLast? = some (pts.getLastD []) := by
   unfold approximateCurve at h
   simp only [] at h
@@ -150,9 +160,10 @@ theorem interpolateCurve_knots_monotone (p : ℕ) (cds : List K) (invp : K) (hpn
 /-- **requested degree**: the interpolating curve has as many control points as data points and
     `n + p + 1` knots, i.e. degree `p`. -/
 theorem interpolateCurve_degree (p : ℕ) (pts : List (List K)) (cds : List K) (invp : K)
-    (kv : List K) (cp : List (List K)) (hpn : p + 1 ≤ pts.length)
+    (kv : List K) (cp : List (List K)) (hg : InterpCurveOk p pts cds)
     (h : interpolateCurve p pts cds invp = some (kv, cp)) :
     cp.length = pts.length ∧ kv.length = cp.length + p + 1 := by
+  have hpn := hg.pn
   unfold interpolateCurve at h
   simp only [] at h
   split at h
@@ -171,21 +182,23 @@ theorem interpolateCurve_degree (p : ℕ) (pts : List (List K)) (cds : List K) (
     `v`-parameter is the data point `Q_{i,j}` (flat index `j + size_v · i`), every coordinate. -/
 theorem interpolateSurface_interpolates (pu pv su sv : ℕ) (pts : List (List K)) (cdsU cdsV : List (List K))
     (invpu invpv : K) (d : ℕ) (kvu kvv : List K) (cp : List (List K))
-    (hlen : pts.length = su * sv) (hpu : pu + 1 ≤ su) (hpv : pv + 1 ≤ sv) (hP : NetOk d pts) (hd : 0 < d)
+    (hg : InterpSurfOk pu pv su sv pts cdsU cdsV) (hP : NetOk d pts) (hd : 0 < d)
     (h : interpolateSurface pu pv su sv pts cdsU cdsV invpu invpv = some (kvu, kvv, cp))
     (i : ℕ) (hi : i < su) (j : ℕ) (hj : j < sv) (c : ℕ) (hc : c < d) :
     (surfacePoint pu pv (fnOf kvu) (fnOf kvv) su sv cp
         ((averageParams cdsU su).getD i 0) ((averageParams cdsV sv).getD j 0)).getD c 0
       = (ptsGet pts (j + sv * i)).getD c 0 :=
-  Geomdl.interpolateSurface_interpolates pu pv su sv pts cdsU cdsV invpu invpv d kvu kvv cp hlen hpu hpv hP hd h
+  Geomdl.interpolateSurface_interpolates pu pv su sv pts cdsU cdsV invpu invpv d kvu kvv cp hg.len hg.pun hg.pvn hP hd h
     i hi j hj c hc
 
 /-- **requested degrees**: the interpolating surface has `su · sv` control points and the two averaged
     knot vectors with `su + pu + 1` and `sv + pv + 1` knots, i.e. degrees `pu`, `pv`. -/
 theorem interpolateSurface_degree (pu pv su sv : ℕ) (pts : List (List K)) (cdsU cdsV : List (List K))
-    (invpu invpv : K) (kvu kvv : List K) (cp : List (List K)) (hpu : pu + 1 ≤ su) (hpv : pv + 1 ≤ sv)
+    (invpu invpv : K) (kvu kvv : List K) (cp : List (List K)) (hg : InterpSurfOk pu pv su sv pts cdsU cdsV)
     (h : interpolateSurface pu pv su sv pts cdsU cdsV invpu invpv = some (kvu, kvv, cp)) :
     cp.length = su * sv ∧ kvu.length = su + pu + 1 ∧ kvv.length = sv + pv + 1 := by
+  have hpu := hg.pun
+  have hpv := hg.pvn
   obtain ⟨h1, h2, h3⟩ := interpolateSurface_shape pu pv su sv pts cdsU cdsV invpu invpv kvu kvv cp h
   subst h1; subst h2
   exact ⟨h3, computeKnotVector_length pu su _ _ hpu, computeKnotVector_length pv sv _ _ hpv⟩
@@ -227,7 +240,7 @@ theorem least_squares_minimises (m n : ℕ) (N : ℕ → ℕ → K) (r x y : ℕ
     function `i` (sums over interior data points `k` and interior control points `j`; `N` as computed
     by `basis_function_one`; `Rk_k = Q_k − N_0(ū_k) Q₀ − N_{nc−1}(ū_k) Q_m`). -/
 theorem approximateCurve_normal_equations (p : ℕ) (pts : List (List K)) (cds : List K) (nc : ℕ) (fl : K → ℕ)
-    (kv : List K) (cp : List (List K)) (hnc : nc ≤ pts.length)
+    (kv : List K) (cp : List (List K)) (hg : ApproxCurveOk p pts cds nc)
     (h : approximateCurve p pts cds nc fl = some (kv, cp)) :
     ∃ x : List (List K), cp = [pts.headD []] ++ x ++ [pts.getLastD []] ∧ x.length = nc - 2 ∧
       ∀ c, c < (pts.headD []).length → ∀ i, i < nc - 2 →
@@ -240,38 +253,38 @@ theorem approximateCurve_normal_equations (p : ℕ) (pts : List (List K)) (cds :
                 * ((pts.getD (1 + k) []).getD c 0
                     - (pts.headD []).getD c 0 * basisFunOne p (fnOf kv) kv.length 0 ((computeParams cds).getD (1 + k) 0)
                     - (pts.getLastD []).getD c 0 * basisFunOne p (fnOf kv) kv.length (nc - 1) ((computeParams cds).getD (1 + k) 0)) := by
-  obtain ⟨_, x, h1, h2, _, h4⟩ := approximateCurve_normal p pts cds nc fl kv cp hnc h
+  obtain ⟨_, x, h1, h2, _, h4⟩ := approximateCurve_normal p pts cds nc fl kv cp hg.nd h
   exact ⟨x, h1, h2, h4⟩
 
 /-- **residual form of the normal equations**: the residual `Q_k − C(ū_k)` of the returned curve
     (`C(u) = Σ_j N_{j,p}(u) P_j` over ALL control points) summed over the interior data points
     against any interior basis function `N_{i,p}` vanishes, coordinate by coordinate. -/
 theorem approximateCurve_residual_orthogonal (p : ℕ) (pts : List (List K)) (cds : List K) (nc : ℕ) (fl : K → ℕ)
-    (kv : List K) (cp : List (List K)) (hnc2 : 2 ≤ nc) (hnc : nc ≤ pts.length)
+    (kv : List K) (cp : List (List K)) (hg : ApproxCurveOk p pts cds nc)
     (h : approximateCurve p pts cds nc fl = some (kv, cp)) (i : ℕ) (hi1 : 1 ≤ i) (hi2 : i + 1 < nc)
     (c : ℕ) (hc : c < (pts.headD []).length) :
     ∑ k ∈ Ico 1 (pts.length - 1), basisFunOne p (fnOf kv) kv.length i ((computeParams cds).getD k 0) *
       ((ptsGet pts k).getD c 0
         - ∑ j ∈ range cp.length, basisFunOne p (fnOf kv) kv.length j ((computeParams cds).getD k 0) * (ptsGet cp j).getD c 0) = 0 :=
-  approximateCurve_orthogonal p pts cds nc fl kv cp hnc2 hnc h i hi1 hi2 c hc
+  approximateCurve_orthogonal p pts cds nc fl kv cp (le_trans (by omega) hg.nc3) hg.nd h i hi1 hi2 c hc
 
 /-- **`fitting.approximate_curve` minimises**: among all control polygons `Q₀ :: y ++ [Q_m]` with
     `nc − 2` interior points, the returned one has the least
     `Σ_{k=1}^{nd−2} Σ_c (Q_{k,c} − Σ_j N_{j,p}(ū_k) P_{j,c})²` (`Geomdl.lsqError`). -/
 theorem approximateCurve_minimises (p : ℕ) (pts : List (List K)) (cds : List K) (nc : ℕ) (fl : K → ℕ)
-    (kv : List K) (cp : List (List K)) (hnc2 : 2 ≤ nc) (hnc : nc ≤ pts.length)
+    (kv : List K) (cp : List (List K)) (hg : ApproxCurveOk p pts cds nc)
     (h : approximateCurve p pts cds nc fl = some (kv, cp)) (y : List (List K)) (hy : y.length = nc - 2) :
     lsqError p (fnOf kv) kv.length (computeParams cds) pts (pts.headD []).length cp
       ≤ lsqError p (fnOf kv) kv.length (computeParams cds) pts (pts.headD []).length
           ([pts.headD []] ++ y ++ [pts.getLastD []]) :=
-  Geomdl.approximateCurve_minimises p pts cds nc fl kv cp hnc2 hnc h y hy
+  Geomdl.approximateCurve_minimises p pts cds nc fl kv cp (le_trans (by omega) hg.nc3) hg.nd h y hy
 
 /-- The same for the EVALUATED curve (`curvePoint`, A3.1 at the span found by the linear search):
     `Σ_k |Q_k − C(ū_k)|²` (`Geomdl.lsqErrorEval`) is minimal, given a non-decreasing knot vector, interior
     parameters inside the half-open domain, and that `basis_function_one` returns the Cox–de Boor values
     there (hypothesis `hB`; this is theorem `basisFunOne_eq_cdb` of C03). -/
 theorem approximateCurve_minimises_evaluated (p : ℕ) (pts : List (List K)) (cds : List K) (nc : ℕ) (fl : K → ℕ)
-    (kv : List K) (cp : List (List K)) (d : ℕ) (hnc2 : 2 ≤ nc) (hpn : p + 1 ≤ nc) (hnc : nc ≤ pts.length)
+    (kv : List K) (cp : List (List K)) (d : ℕ) (hg : ApproxCurveOk p pts cds nc)
     (hP : NetOk d pts) (h : approximateCurve p pts cds nc fl = some (kv, cp))
     (hm : Monotone (fnOf kv))
     (hdom : ∀ k, 1 ≤ k → k + 1 < pts.length →
@@ -282,14 +295,18 @@ theorem approximateCurve_minimises_evaluated (p : ℕ) (pts : List (List K)) (cd
     (y : List (List K)) (hy : y.length = nc - 2) (hyd : NetOk d y) :
     lsqErrorEval p (fnOf kv) (computeParams cds) pts d cp
       ≤ lsqErrorEval p (fnOf kv) (computeParams cds) pts d ([pts.headD []] ++ y ++ [pts.getLastD []]) :=
-  Geomdl.approximateCurve_minimises_evaluated p pts cds nc fl kv cp d hnc2 hpn hnc hP h hm hdom hB y hy hyd
+  Geomdl.approximateCurve_minimises_evaluated p pts cds nc fl kv cp d (le_trans (by omega) hg.nc3) hg.pn hg.nd hP h hm hdom
+    hB y hy hyd
 
 /-- The knot vector of the approximation has `nc + p + 1` knots and is clamped (`p+1` zeros, `p+1` ones),
     so the curve has `nc` control points and degree `p`. -/
 theorem approximateCurve_shape (p : ℕ) (pts : List (List K)) (cds : List K) (nc : ℕ) (fl : K → ℕ)
-    (kv : List K) (cp : List (List K)) (hnc2 : 2 ≤ nc) (hpn : p + 1 ≤ nc) (hnc : nc ≤ pts.length)
+    (kv : List K) (cp : List (List K)) (hg : ApproxCurveOk p pts cds nc)
     (h : approximateCurve p pts cds nc fl = some (kv, cp)) :
     cp.length = nc ∧ kv.length = nc + p + 1 ∧ (∀ i, i ≤ p → fnOf kv i = 0) ∧ (∀ i, nc ≤ i → fnOf kv i = 1) := by
+  have hnc2 : 2 ≤ nc := le_trans (by omega) hg.nc3
+  have hpn := hg.pn
+  have hnc := hg.nd
   obtain ⟨hkv, x, hcp, hxl, _, _⟩ := approximateCurve_normal p pts cds nc fl kv cp hnc h
   subst hkv
   refine ⟨by rw [hcp]; simp [hxl]; omega, computeKnotVector2_length p _ nc _ fl hpn,
@@ -299,12 +316,12 @@ theorem approximateCurve_shape (p : ℕ) (pts : List (List K)) (cds : List K) (n
     (evaluated curve, every coordinate), for a non-decreasing knot vector whose first and last spans
     are not empty (`0 < U_{p+1}`, `U_{nc-1} < 1`). -/
 theorem approximateCurve_interpolates_ends (p : ℕ) (pts : List (List K)) (cds : List K) (nc : ℕ) (fl : K → ℕ)
-    (kv : List K) (cp : List (List K)) (d : ℕ) (hnc2 : 2 ≤ nc) (hpn : p + 1 ≤ nc) (hnc : nc ≤ pts.length)
+    (kv : List K) (cp : List (List K)) (d : ℕ) (hg : ApproxCurveOk p pts cds nc)
     (hP : NetOk d pts) (h : approximateCurve p pts cds nc fl = some (kv, cp))
     (hm : Monotone (fnOf kv)) (h0 : 0 < fnOf kv (p + 1)) (h1 : fnOf kv (nc - 1) < 1) (c : ℕ) :
     (curvePoint p (fnOf kv) cp 0).getD c 0 = (pts.headD []).getD c 0 ∧
     (curvePoint p (fnOf kv) cp 1).getD c 0 = (pts.getLastD []).getD c 0 :=
-  Geomdl.approximateCurve_interpolates_ends p pts cds nc fl kv cp d hnc2 hpn hnc hP h hm h0 h1 c
+  Geomdl.approximateCurve_interpolates_ends p pts cds nc fl kv cp d (le_trans (by omega) hg.nc3) hg.pn hg.nd hP h hm h0 h1 c
 
 /-! ### the knot vector of the approximation (`compute_knot_vector2`) and data with distinct consecutive points -/
 
@@ -329,19 +346,19 @@ theorem knotVector2_ends (p nd nc : ℕ) (uk : List K) (fl : K → ℕ) (hfl : I
     whenever the solver returns, `C(0) = Q₀` and `C(1) = Q_m` for the evaluated approximating curve –
     no hypothesis on the knot vector. -/
 theorem approximateCurve_interpolates_ends_distinct (p : ℕ) (pts : List (List K)) (cds : List K) (nc : ℕ) (fl : K → ℕ)
-    (kv : List K) (cp : List (List K)) (d : ℕ) (hfl : IsFloor fl) (hp : 1 ≤ p) (hpn : p + 1 ≤ nc)
-    (hnc : nc ≤ pts.length) (hlen : cds.length + 1 = pts.length) (hpos : ∀ x ∈ cds, 0 < x)
+    (kv : List K) (cp : List (List K)) (d : ℕ) (hfl : IsFloor fl) (hg : ApproxCurveOk p pts cds nc)
+    (hpos : ∀ x ∈ cds, 0 < x)
     (hP : NetOk d pts) (h : approximateCurve p pts cds nc fl = some (kv, cp)) (c : ℕ) :
     (curvePoint p (fnOf kv) cp 0).getD c 0 = (pts.headD []).getD c 0 ∧
     (curvePoint p (fnOf kv) cp 1).getD c 0 = (pts.getLastD []).getD c 0 :=
-  Geomdl.approximateCurve_interpolates_ends_distinct p pts cds nc fl kv cp d hfl hp hpn hnc hlen hpos hP h c
+  Geomdl.approximateCurve_interpolates_ends_distinct p pts cds nc fl kv cp d hfl hg.p1 hg.pn hg.nd hg.len hpos hP h c
 
 /-- **Least squares for the evaluated curve, data with distinct consecutive points**: besides "the
     solver returns" the only hypothesis left is `hB` (`basis_function_one` = Cox–de Boor at the interior
     parameters, theorem `basisFunOne_eq_cdb` of C03). -/
 theorem approximateCurve_minimises_evaluated_distinct (p : ℕ) (pts : List (List K)) (cds : List K) (nc : ℕ) (fl : K → ℕ)
-    (kv : List K) (cp : List (List K)) (d : ℕ) (hfl : IsFloor fl) (hp : 1 ≤ p) (hpn : p + 1 ≤ nc)
-    (hnc : nc ≤ pts.length) (hlen : cds.length + 1 = pts.length) (hpos : ∀ x ∈ cds, 0 < x)
+    (kv : List K) (cp : List (List K)) (d : ℕ) (hfl : IsFloor fl) (hg : ApproxCurveOk p pts cds nc)
+    (hpos : ∀ x ∈ cds, 0 < x)
     (hP : NetOk d pts) (h : approximateCurve p pts cds nc fl = some (kv, cp))
     (hB : ∀ k, 1 ≤ k → k + 1 < pts.length → ∀ j, j < nc →
       basisFunOne p (fnOf kv) kv.length j ((computeParams cds).getD k 0)
@@ -349,20 +366,21 @@ theorem approximateCurve_minimises_evaluated_distinct (p : ℕ) (pts : List (Lis
     (y : List (List K)) (hy : y.length = nc - 2) (hyd : NetOk d y) :
     lsqErrorEval p (fnOf kv) (computeParams cds) pts d cp
       ≤ lsqErrorEval p (fnOf kv) (computeParams cds) pts d ([pts.headD []] ++ y ++ [pts.getLastD []]) :=
-  Geomdl.approximateCurve_minimises_evaluated_distinct p pts cds nc fl kv cp d hfl hp hpn hnc hlen hpos hP h hB y hy hyd
+  Geomdl.approximateCurve_minimises_evaluated_distinct p pts cds nc fl kv cp d hfl hg.p1 hg.pn hg.nd hg.len hpos hP h hB y hy
+    hyd
 
 /-- **Least squares, final form** (with C03 `basisFunOne_eq_cdb`): for data with distinct consecutive
     points, whenever the solver returns, the control polygon returned by `approximate_curve` minimises
     the summed squared distance `Σ_{k=1}^{nd−2} |Q_k − C(ū_k)|²` between the interior data points and
     the EVALUATED curve (A3.1) among all polygons `Q₀ :: y ++ [Q_m]` with `nc − 2` interior points. -/
 theorem approximateCurve_least_squares (p : ℕ) (pts : List (List K)) (cds : List K) (nc : ℕ) (fl : K → ℕ)
-    (kv : List K) (cp : List (List K)) (d : ℕ) (hfl : IsFloor fl) (hp : 1 ≤ p) (hpn : p + 1 ≤ nc)
-    (hnc : nc ≤ pts.length) (hlen : cds.length + 1 = pts.length) (hpos : ∀ x ∈ cds, 0 < x)
+    (kv : List K) (cp : List (List K)) (d : ℕ) (hfl : IsFloor fl) (hg : ApproxCurveOk p pts cds nc)
+    (hpos : ∀ x ∈ cds, 0 < x)
     (hP : NetOk d pts) (h : approximateCurve p pts cds nc fl = some (kv, cp))
     (y : List (List K)) (hy : y.length = nc - 2) (hyd : NetOk d y) :
     lsqErrorEval p (fnOf kv) (computeParams cds) pts d cp
       ≤ lsqErrorEval p (fnOf kv) (computeParams cds) pts d ([pts.headD []] ++ y ++ [pts.getLastD []]) :=
-  Geomdl.approximateCurve_least_squares p pts cds nc fl kv cp d hfl hp hpn hnc hlen hpos hP h y hy hyd
+  Geomdl.approximateCurve_least_squares p pts cds nc fl kv cp d hfl hg.p1 hg.pn hg.nd hg.len hpos hP h y hy hyd
 
 /-! ### surface approximation (`fitting.approximate_surface`, A9.7 as coded) -/
 
@@ -380,29 +398,38 @@ theorem approximateCurve_is_one_pass (p : ℕ) (pts : List (List K)) (cds : List
 /-- **The four corner control points of `approximate_surface` are the four corner data points**
     (`eu`, `ev`: last index of the direction or the first; layouts `v + size_v·u` of the data and
     `v + ctrlpts_size_v·u` of the net), and the net has `ncu · ncv` points – whenever the solver passes
-    return, for at least two control points per direction. -/
+    return, on the inputs the routine accepts (`ApproxSurfOk`: in particular `su·sv` data points – with a short list
+    the code raises `IndexError` and the model pads with `[]` –, at least three control points per direction, no data
+    line of total chord length 0). -/
 theorem approximateSurface_corner_ctrlpts (pu pv su sv : ℕ) (pts : List (List K)) (cdsU cdsV : List (List K))
     (ncu ncv : ℕ) (fl : K → ℕ) (kvu kvv : List K) (cp : List (List K))
-    (hsu : 1 ≤ su) (hsv : 1 ≤ sv) (hncu : 2 ≤ ncu) (hncv : 2 ≤ ncv)
+    (hg : ApproxSurfOk pu pv su sv pts cdsU cdsV ncu ncv)
     (h : approximateSurface pu pv su sv pts cdsU cdsV ncu ncv fl = some (kvu, kvv, cp)) (eu ev : Bool) :
     cp.length = ncu * ncv ∧
     ptsGet cp ((if ev then ncv - 1 else 0) + ncv * (if eu then ncu - 1 else 0))
       = ptsGet pts ((if ev then sv - 1 else 0) + sv * (if eu then su - 1 else 0)) :=
-  Geomdl.approximateSurface_corner_ctrlpts pu pv su sv pts cdsU cdsV ncu ncv fl kvu kvv cp hsu hsv hncu hncv h eu ev
+  Geomdl.approximateSurface_corner_ctrlpts pu pv su sv pts cdsU cdsV ncu ncv fl kvu kvv cp
+    (le_trans (by omega) (le_trans hg.ncu3 hg.ndu)) (le_trans (by omega) (le_trans hg.ncv3 hg.ndv))
+    (le_trans (by omega) hg.ncu3) (le_trans (by omega) hg.ncv3) h eu ev
 
 /-- **requested sizes and degrees**: the two knot vectors are those of `compute_knot_vector2` for the
     averaged parameters, have `ncu + pu + 1` and `ncv + pv + 1` knots and are clamped; every control
     point has the dimension of the data. -/
 theorem approximateSurface_shape (pu pv su sv : ℕ) (pts : List (List K)) (cdsU cdsV : List (List K))
     (ncu ncv : ℕ) (fl : K → ℕ) (kvu kvv : List K) (cp : List (List K)) (d : ℕ)
-    (hsu : 1 ≤ su) (hsv : 1 ≤ sv) (hncu : 2 ≤ ncu) (hpu : pu + 1 ≤ ncu) (hpv : pv + 1 ≤ ncv)
-    (hlen : pts.length = su * sv) (hP : NetOk d pts)
+    (hg : ApproxSurfOk pu pv su sv pts cdsU cdsV ncu ncv) (hP : NetOk d pts)
     (h : approximateSurface pu pv su sv pts cdsU cdsV ncu ncv fl = some (kvu, kvv, cp)) :
     kvu = computeKnotVector2 pu su ncu (averageParams cdsU su) fl ∧
     kvv = computeKnotVector2 pv sv ncv (averageParams cdsV sv) fl ∧
     kvu.length = ncu + pu + 1 ∧ kvv.length = ncv + pv + 1 ∧
     (∀ i, i ≤ pu → fnOf kvu i = 0) ∧ (∀ i, ncu ≤ i → fnOf kvu i = 1) ∧
     (∀ i, i ≤ pv → fnOf kvv i = 0) ∧ (∀ i, ncv ≤ i → fnOf kvv i = 1) ∧ NetOk d cp := by
+  have hsu : 1 ≤ su := le_trans (by omega) (le_trans hg.ncu3 hg.ndu)
+  have hsv : 1 ≤ sv := le_trans (by omega) (le_trans hg.ncv3 hg.ndv)
+  have hncu : 2 ≤ ncu := le_trans (by omega) hg.ncu3
+  have hpu := hg.pun
+  have hpv := hg.pvn
+  have hlen := hg.len
   obtain ⟨h1, h2, _⟩ := approximateSurface_struct pu pv su sv pts cdsU cdsV ncu ncv fl kvu kvv cp h
   have hN := approximateSurface_netOk pu pv su sv pts cdsU cdsV ncu ncv fl kvu kvv cp d hsu hsv hncu hlen hP h
   subst h1; subst h2
@@ -416,16 +443,17 @@ theorem approximateSurface_shape (pu pv su sv : ℕ) (pts : List (List K)) (cdsU
     (clamped-corner theorem of C18). -/
 theorem approximateSurface_interpolates_corners (pu pv su sv : ℕ) (pts : List (List K)) (cdsU cdsV : List (List K))
     (ncu ncv : ℕ) (fl : K → ℕ) (kvu kvv : List K) (cp : List (List K)) (d : ℕ)
-    (hsu : 1 ≤ su) (hsv : 1 ≤ sv) (hncu : 2 ≤ ncu) (hncv : 2 ≤ ncv) (hpu : pu + 1 ≤ ncu) (hpv : pv + 1 ≤ ncv)
-    (hlen : pts.length = su * sv) (hP : NetOk d pts)
+    (hg : ApproxSurfOk pu pv su sv pts cdsU cdsV ncu ncv) (hP : NetOk d pts)
     (h : approximateSurface pu pv su sv pts cdsU cdsV ncu ncv fl = some (kvu, kvv, cp))
     (hmu : Monotone (fnOf kvu)) (hu0 : 0 < fnOf kvu (pu + 1)) (hu1 : fnOf kvu (ncu - 1) < 1)
     (hmv : Monotone (fnOf kvv)) (hv0 : 0 < fnOf kvv (pv + 1)) (hv1 : fnOf kvv (ncv - 1) < 1)
     (eu ev : Bool) (c : ℕ) :
     (surfacePoint pu pv (fnOf kvu) (fnOf kvv) ncu ncv cp (if eu then 1 else 0) (if ev then 1 else 0)).getD c 0
       = (ptsGet pts ((if ev then sv - 1 else 0) + sv * (if eu then su - 1 else 0))).getD c 0 :=
-  Geomdl.approximateSurface_interpolates_corners pu pv su sv pts cdsU cdsV ncu ncv fl kvu kvv cp d hsu hsv hncu hncv
-    hpu hpv hlen hP h hmu hu0 hu1 hmv hv0 hv1 eu ev c
+  Geomdl.approximateSurface_interpolates_corners pu pv su sv pts cdsU cdsV ncu ncv fl kvu kvv cp d
+    (le_trans (by omega) (le_trans hg.ncu3 hg.ndu)) (le_trans (by omega) (le_trans hg.ncv3 hg.ndv))
+    (le_trans (by omega) hg.ncu3) (le_trans (by omega) hg.ncv3)
+    hg.pun hg.pvn hg.len hP h hmu hu0 hu1 hmv hv0 hv1 eu ev c
 
 /-- **Corner interpolation for data whose consecutive points are distinct** (every chord length
     positive, one chord list per data line): no hypothesis on the knot vectors is left – whenever the
@@ -433,16 +461,18 @@ theorem approximateSurface_interpolates_corners (pu pv su sv : ℕ) (pts : List 
     `knotVector2_ends` for the averaged parameters of `compute_params_surface`). -/
 theorem approximateSurface_interpolates_corners_distinct (pu pv su sv : ℕ) (pts : List (List K))
     (cdsU cdsV : List (List K)) (ncu ncv : ℕ) (fl : K → ℕ) (kvu kvv : List K) (cp : List (List K)) (d : ℕ)
-    (hfl : IsFloor fl) (hpu1 : 1 ≤ pu) (hpv1 : 1 ≤ pv) (hpu : pu + 1 ≤ ncu) (hpv : pv + 1 ≤ ncv)
-    (hncu : ncu ≤ su) (hncv : ncv ≤ sv) (hlen : pts.length = su * sv) (hP : NetOk d pts)
-    (hcU : cdsU ≠ [] ∧ ∀ c ∈ cdsU, c.length + 1 = su ∧ ∀ x ∈ c, 0 < x)
-    (hcV : cdsV ≠ [] ∧ ∀ c ∈ cdsV, c.length + 1 = sv ∧ ∀ x ∈ c, 0 < x)
+    (hfl : IsFloor fl) (hg : ApproxSurfOk pu pv su sv pts cdsU cdsV ncu ncv) (hP : NetOk d pts)
+    (hcU : ∀ c ∈ cdsU, ∀ x ∈ c, 0 < x) (hcV : ∀ c ∈ cdsV, ∀ x ∈ c, 0 < x)
     (h : approximateSurface pu pv su sv pts cdsU cdsV ncu ncv fl = some (kvu, kvv, cp))
     (eu ev : Bool) (c : ℕ) :
     (surfacePoint pu pv (fnOf kvu) (fnOf kvv) ncu ncv cp (if eu then 1 else 0) (if ev then 1 else 0)).getD c 0
       = (ptsGet pts ((if ev then sv - 1 else 0) + sv * (if eu then su - 1 else 0))).getD c 0 :=
-  Geomdl.approximateSurface_interpolates_corners_distinct pu pv su sv pts cdsU cdsV ncu ncv fl kvu kvv cp d hfl hpu1 hpv1
-    hpu hpv hncu hncv hlen hP hcU hcV h eu ev c
+  Geomdl.approximateSurface_interpolates_corners_distinct pu pv su sv pts cdsU cdsV ncu ncv fl kvu kvv cp d hfl hg.pu1 hg.pv1
+    hg.pun hg.pvn hg.ndu hg.ndv hg.len hP
+    ⟨by intro e; have := hg.cu.1; rw [e] at this; have := hg.ncv3; have := hg.ndv; simp at *; omega,
+     fun c hc => ⟨(hg.cu.2 c hc).1, hcU c hc⟩⟩
+    ⟨by intro e; have := hg.cv.1; rw [e] at this; have := hg.ncu3; have := hg.ndu; simp at *; omega,
+     fun c hc => ⟨(hg.cv.2 c hc).1, hcV c hc⟩⟩ h eu ev c
 
 /-- The averaged parameters of `compute_params_surface` are strictly increasing when every chord length
     is positive. -/
@@ -457,16 +487,19 @@ theorem surface_params_strictMono (cdsList : List (List K)) (n : ℕ) (hne : cds
     polygon (`Geomdl.IsLsqLine`: the two ends of the line kept, the interior points solve
     `NᵀN x = Nᵀ Rk` coordinate by coordinate, `N` as computed by `basis_function_one`) of the data line
     `Q_{0,j} … Q_{su−1,j}` for the parameters `ū` and the knot vector `kvu`, and row `i` is a least-squares
-    polygon of the line formed by the `i`-th points of the columns for `v̄` and `kvv`. -/
+    polygon of the line formed by the `i`-th points of the columns for `v̄` and `kvv`.  On the inputs the routine
+    accepts (`ApproxSurfOk`, data points of one dimension `d`; with a data line of coincident points the code raises
+    `ZeroDivisionError` while the model would return with all-zero parameters). -/
 theorem approximateSurface_passes_normal_equations (pu pv su sv : ℕ) (pts : List (List K)) (cdsU cdsV : List (List K))
-    (ncu ncv : ℕ) (fl : K → ℕ) (kvu kvv : List K) (cp : List (List K)) (hncu : ncu ≤ su) (hncv : ncv ≤ sv)
+    (ncu ncv : ℕ) (fl : K → ℕ) (kvu kvv : List K) (cp : List (List K)) (d : ℕ)
+    (hg : ApproxSurfOk pu pv su sv pts cdsU cdsV ncu ncv) (hP : NetOk d pts)
     (h : approximateSurface pu pv su sv pts cdsU cdsV ncu ncv fl = some (kvu, kvv, cp)) :
     ∃ cols rows : List (List (List K)), cols.length = sv ∧ rows.length = ncu ∧ cp = rows.flatten ∧
       (∀ j, j < sv → IsLsqLine pu (fnOf kvu) kvu.length (averageParams cdsU su)
           ((List.range su).map (fun i => pts.getD (j + sv * i) [])) ncu (pts.headD []).length (cols.getD j [])) ∧
       (∀ i, i < ncu → IsLsqLine pv (fnOf kvv) kvv.length (averageParams cdsV sv)
           ((List.range sv).map (fun j => (cols.getD j []).getD i [])) ncv (pts.headD []).length (rows.getD i [])) :=
-  approximateSurface_passes_lsq pu pv su sv pts cdsU cdsV ncu ncv fl kvu kvv cp hncu hncv h
+  approximateSurface_passes_lsq pu pv su sv pts cdsU cdsV ncu ncv fl kvu kvv cp hg.ndu hg.ndv h
 
 /-- … what `IsLsqLine` says, written out: the polygon is `Q₀ :: x ++ [Q_m]` and `x` solves the normal
     equations of every coordinate … -/
@@ -578,5 +611,69 @@ example :
 example : (([[1,1,2],[1,2,1],[2,1,1],[1,3,1],[1,1,1]] : List (List ℚ)) ≠ [] ∧
     ∀ c ∈ ([[1,1,2],[1,2,1],[2,1,1],[1,3,1],[1,1,1]] : List (List ℚ)), c.length + 1 = 4 ∧ ∀ x ∈ c, 0 < x) := by
   decide +kernel
+
+/-! ### the guard bundles are satisfiable and the theorems apply (witness data of Lemmas/FitWitness.lean) -/
+
+/-- curve interpolation: 7 points, degree 3 – guard, the model returns, the theorem applied at every data point -/
+example : ∃ kv cp, interpolateCurve 3 ptsC cdsC (1/3) = some (kv, cp) ∧
+    ∀ i, i < 7 → ∀ c, c < 2 → (curvePoint 3 (fnOf kv) cp ((computeParams cdsC).getD i 0)).getD c 0 = (ptsGet ptsC i).getD c 0 := by
+  have h : (interpolateCurve 3 ptsC cdsC (1/3)).isSome = true := by decide +kernel
+  obtain ⟨⟨kv, cp⟩, h⟩ := Option.isSome_iff_exists.mp h
+  exact ⟨kv, cp, h, fun i hi c hc => interpolateCurve_interpolates 3 ptsC cdsC (1/3) 2 kv cp okIC netC (by omega) h i hi c hc⟩
+
+/-- surface interpolation: the guard holds on the 3 × 4 grid and the model returns -/
+example : InterpSurfOk 2 2 3 4 ptsI cuI cvI ∧ (interpolateSurface 2 2 3 4 ptsI cuI cvI (1/2) (1/2)).isSome = true :=
+  ⟨okIS, by decide +kernel⟩
+
+/-- curve approximation: least squares (final form) applied to the model's own output, arbitrary competitor -/
+example : ∃ kv cp, approximateCurve 2 ptsC cdsC 4 flQ = some (kv, cp) ∧
+    ∀ y : List (List ℚ), y.length = 4 - 2 → NetOk 2 y →
+      lsqErrorEval 2 (fnOf kv) (computeParams cdsC) ptsC 2 cp
+        ≤ lsqErrorEval 2 (fnOf kv) (computeParams cdsC) ptsC 2 ([ptsC.headD []] ++ y ++ [ptsC.getLastD []]) := by
+  obtain ⟨⟨kv, cp⟩, h⟩ := resAC
+  exact ⟨kv, cp, h, fun y hy hyd =>
+    approximateCurve_least_squares 2 ptsC cdsC 4 flQ kv cp 2 flQ_floor okAC (by decide +kernel) netC h y hy hyd⟩
+
+/-- surface approximation, the strongest corner theorem: all four corners, every coordinate -/
+example : ∃ kvu kvv cp, approximateSurface 2 1 4 5 ptsA cuA cvA 3 4 flQ = some (kvu, kvv, cp) ∧
+    ∀ eu ev : Bool, ∀ c,
+    (surfacePoint 2 1 (fnOf kvu) (fnOf kvv) 3 4 cp (if eu then 1 else 0) (if ev then 1 else 0)).getD c 0
+      = (ptsGet ptsA ((if ev then 5 - 1 else 0) + 5 * (if eu then 4 - 1 else 0))).getD c 0 := by
+  obtain ⟨⟨kvu, kvv, cp⟩, h⟩ := resA
+  exact ⟨kvu, kvv, cp, h, fun eu ev c =>
+    approximateSurface_interpolates_corners_distinct 2 1 4 5 ptsA cuA cvA 3 4 flQ kvu kvv cp 3 flQ_floor okA netA
+      (by decide +kernel) (by decide +kernel) h eu ev c⟩
+
+/-- … the shape theorem … -/
+example : ∃ kvu kvv cp, approximateSurface 2 1 4 5 ptsA cuA cvA 3 4 flQ = some (kvu, kvv, cp) ∧
+    kvu.length = 3 + 2 + 1 ∧ kvv.length = 4 + 1 + 1 ∧ NetOk 3 cp := by
+  obtain ⟨⟨kvu, kvv, cp⟩, h⟩ := resA
+  have := approximateSurface_shape 2 1 4 5 ptsA cuA cvA 3 4 flQ kvu kvv cp 3 okA netA h
+  exact ⟨kvu, kvv, cp, h, this.2.2.1, this.2.2.2.1, this.2.2.2.2.2.2.2.2⟩
+
+/-- … and both passes: the `IsLsqLine` statements are produced by the model function, and `lsqLine_minimises`
+    composed with them gives, for every data column `j` and ANY competitor `y`, that the fitted column polygon has
+    the least squared residual -/
+example : ∃ kvu kvv cp, approximateSurface 2 1 4 5 ptsA cuA cvA 3 4 flQ = some (kvu, kvv, cp) ∧
+    ∃ cols : List (List (List ℚ)), ∀ j, j < 5 → ∀ y : List (List ℚ), y.length = 3 - 2 →
+      lsqError 2 (fnOf kvu) kvu.length (averageParams cuA 4) ((List.range 4).map (fun i => ptsA.getD (j + 5 * i) [])) 3 (cols.getD j [])
+        ≤ lsqError 2 (fnOf kvu) kvu.length (averageParams cuA 4) ((List.range 4).map (fun i => ptsA.getD (j + 5 * i) [])) 3
+            ([((List.range 4).map (fun i => ptsA.getD (j + 5 * i) [])).headD []] ++ y
+              ++ [((List.range 4).map (fun i => ptsA.getD (j + 5 * i) [])).getLastD []]) := by
+  obtain ⟨⟨kvu, kvv, cp⟩, h⟩ := resA
+  obtain ⟨cols, rows, _, _, _, hU, _⟩ :=
+    approximateSurface_passes_normal_equations 2 1 4 5 ptsA cuA cvA 3 4 flQ kvu kvv cp 3 okA netA h
+  refine ⟨kvu, kvv, cp, h, cols, fun j hj y hy => ?_⟩
+  have hd : (ptsA.headD []).length = 3 := by decide
+  have := (lsqLine_minimises 2 (fnOf kvu) kvu.length (averageParams cuA 4) _ 3 _ (cols.getD j []) (hU j hj) (by norm_num)).1 y hy
+  rw [hd] at this
+  exact this
+
+/-- what the guards exclude: with TWO control points per direction the model returns the bilinear patch (the real
+    `approximate_surface(…, ctrlpts_size_u=2, ctrlpts_size_v=2)` raises `IndexError`, finding F-11a) – `ApproxSurfOk` fails -/
+example : approximateSurface 1 1 3 3
+      ([[0,0,0],[0,1,1],[0,2,0], [1,0,1],[1,1,5],[1,2,1], [2,0,0],[2,1,1],[2,2,3]] : List (List ℚ))
+      [[1,1],[1,2],[2,1]] [[1,1],[1,2],[2,1]] 2 2 flQ
+    = some ([0,0,1,1], [0,0,1,1], [[0,0,0],[0,2,0],[2,0,0],[2,2,3]]) := by decide +kernel
 
 end C11
